@@ -243,6 +243,24 @@ def run(m, rep, tier):
     _ae = rep.rule('D12', 'every store / effectful call made with assertions enabled is also made by the NDEBUG build (no work inside assert())', floor=1)
     check_assert_effects(m, _ae, ('dlist.c', 'dlist.h'))
 
+    # ---- D13 / D14 ---------------------------------------------------------------------------------------
+    from .util import check_no_mutable_globals
+    d13 = rep.rule('D13', 'dlist.c defines no writable static object', floor=1)
+    check_no_mutable_globals(m, d13, ('dlist',))
+    # the sought object is opaque to find: it is only ever handed to the caller's comparison function
+    d14 = rep.rule('D14', 'cstl_dlist_find never inspects the sought object pointer itself (it is only handed to the comparison function)', floor=1)
+    f14 = m.pfn('cstl_dlist_find')
+    if f14 is None:
+        d14.undecided('cstl_dlist_find', 'not in the model')
+    else:
+        tests = [i for i in f14.all_insts() if i.op == 'icmp' and any(isinstance(o, str) and strip_bitcasts(f14, o) == '$1' for o in i.o)]
+        derefs = [i for i in f14.all_insts() if i.op in ('load', 'store') and resolve_addr(f14, i.o[0] if i.op == 'load' else i.o[1]).root == '$1']
+        if tests or derefs:
+            d14.violation('cstl_dlist_find', 'the sought object pointer is %s at %s: a search whose criterion lives in the comparison context (a NULL or '
+                          'dummy object) no longer reaches the comparison function' % ('tested' if tests else 'dereferenced', (tests or derefs)[0].loc()), floc(m, f14), {})
+        else:
+            d14.ok('cstl_dlist_find', 'the sought object is only passed on', floc(m, f14))
+
 
 def check_swap(m, f, rule):
     # judged on the function as written: the generic exchange stays a call, whatever its body does for small sizes
